@@ -16,6 +16,7 @@ import GV.Eval.LowerThm
 import GV.Eval.FactsParams
 import GV.Generated.Math
 import GV.Generated.Listener
+import GV.Generated.Cmp
 namespace GV.Props.C01
 open GV.Eval
 
@@ -116,6 +117,23 @@ example :
     let e : RE := .log 1 .and (.cmp 1 .gt (.ar 1 .add (.lit 1 (.i .int64 1)) (.ar 1 .mul (.lit 1 (.i .int64 2)) (.lit 1 (.i .int64 3)))) (.lit 1 (.i .int64 6)))
       (.not 1 (.lit 1 (.b false)))
     e.WF = true := by decide
+
+/-- The comparison and logical blocks of `Expression.Evaluate`, translated on every run: the operator
+    tables of the three operand classes (for numbers as the set of three-way outcomes each operator
+    accepts, computed from the source's predicate on `c`), the float three-way switch, the dispatch
+    between the float and the exact integer path, `compareIntegers` / `toFloat64` / the kind predicates
+    case by case, and the statements of the `&&` / `||` block (both operands evaluated, then
+    combined) are the ones `goCmp` and the interpreter's logical case were written from. -/
+theorem C01_cmp_regenerated : GV.Generated.Cmp.tables = CmpIR.expected := by rfl
+
+/-- … and the model's operator semantics (`COp.holds` over the three-way outcome) is what those
+    tables say, for every operator and outcome, numbers and strings alike. -/
+theorem C01_cmp_operator_tables (op : COp) (o : Ord3) :
+    CmpIR.numHolds GV.Generated.Cmp.tables op o = some (op.holds o) ∧
+    CmpIR.strHolds GV.Generated.Cmp.tables op o = some (op.holds o) ∧
+    CmpIR.boolOps GV.Generated.Cmp.tables = ["==", "!="] := by
+  rw [C01_cmp_regenerated]
+  exact ⟨CmpIR.numHolds_expected op o, CmpIR.strHolds_expected op o, CmpIR.boolOps_expected⟩
 
 /-- `@name`, `@desc` and `@sal` are the enclosing rule's own: the listener clears what it remembers
     of the previous rule's header when it enters a rule (regenerated from `EnterRuleEntity`), so a rule
